@@ -100,20 +100,7 @@ func (r *autoRecorder) log(ev map[string]interface{}) {
 	r.mu.Unlock()
 }
 
-func (r *autoRecorder) dirID(p string) (string, string) {
-	rel, err := filepath.Rel(filepath.Join(r.w.root, "dirs"), p)
-	if err != nil {
-		return "?", "?"
-	}
-	parts := strings.Split(rel, string(os.PathSeparator))
-	if len(parts) == 2 && parts[1] == "d" {
-		return parts[0], "."
-	}
-	if len(parts) == 3 && parts[1] == "d" {
-		return parts[0], parts[2]
-	}
-	return "?", rel
-}
+func (r *autoRecorder) dirID(p string) (string, string) { return r.w.locate(p) }
 
 func (r *autoRecorder) snapshot(c *cdi.Cache) map[string]interface{} {
 	ix := cdi.VerifIndex(c)
@@ -402,12 +389,39 @@ type autoWorld struct {
 }
 
 func autoKind(d string) string { return "v" + strings.ToLower(d) + ".com/cls" }
-func (w *autoWorld) dir(d string) string { return filepath.Join(w.root, "dirs", d, "d") }
+
+// In the ordinary world the directories are siblings whose names are string prefixes of each other
+// (cdi, cdi.d, cdi.d2): whatever compares paths without minding the separator confuses them.  In the
+// "bad" world each has a parent of its own, which becomes a regular file when the directory is absent.
+var flatNames = map[string]string{"A": "cdi", "B": "cdi.d", "C": "cdi.d2"}
+
+func (w *autoWorld) dir(d string) string {
+	if !w.bad {
+		return filepath.Join(w.root, "dirs", flatNames[d])
+	}
+	return filepath.Join(w.root, "dirs", d, "d")
+}
+
+// locate maps a path back to (directory id, "." or entry name)
+func (w *autoWorld) locate(p string) (string, string) {
+	for _, d := range []string{"A", "B", "C"} {
+		if p == w.dir(d) {
+			return d, "."
+		}
+		if filepath.Dir(p) == w.dir(d) {
+			return d, filepath.Base(p)
+		}
+	}
+	return "?", p
+}
 
 // absent makes directory d not exist (in the way this world does that); present creates it
 func (w *autoWorld) absent(d string) error {
 	top := filepath.Join(w.root, "dirs", d)
 	_ = os.Remove(w.dir(d))
+	if !w.bad {
+		return nil
+	}
 	if w.bad {
 		_ = os.Remove(top)
 		return os.WriteFile(top, []byte("a regular file where a directory is expected\n"), 0o644)
@@ -416,6 +430,9 @@ func (w *autoWorld) absent(d string) error {
 }
 
 func (w *autoWorld) present(d string) error {
+	if !w.bad {
+		return os.Mkdir(w.dir(d), 0o755)
+	}
 	top := filepath.Join(w.root, "dirs", d)
 	if st, err := os.Lstat(top); err == nil && !st.IsDir() {
 		_ = os.Remove(top)
@@ -500,11 +517,11 @@ func (w *autoWorld) view(c *cdi.Cache, dirs []string) autoView {
 		v.Devs[d] = ver
 	}
 	for p := range c.GetErrors() {
-		if rel, err := filepath.Rel(filepath.Join(w.root, "dirs"), p); err == nil {
-			if strings.Count(rel, string(os.PathSeparator)) >= 2 {
-				v.FileErrs = append(v.FileErrs, rel)
+		if d, n := w.locate(p); d != "?" {
+			if n != "." {
+				v.FileErrs = append(v.FileErrs, d+"/d/"+n)
 			} else {
-				v.DirErrs = append(v.DirErrs, rel)
+				v.DirErrs = append(v.DirErrs, d+"/d")
 			}
 		}
 	}
@@ -676,6 +693,19 @@ func runAutoOnce(row *autoRow, pacing int, r *rand.Rand, bad bool, rec *autoReco
 	fresh, _ := cdi.NewCache(cdi.WithSpecDirs(w.paths(dirs)...), cdi.WithAutoRefresh(auto))
 	want := w.view(fresh, dirs)
 	_ = fresh.Configure(cdi.WithAutoRefresh(false))
+	// ... which in turn has to be what the specification says a scan of the final directories yields
+	// (a reference built by the code under test shares its scan defects)
+	if len(row.Fresh) > 0 {
+		model := autoView{Devs: map[string]int{}, FileErrs: want.FileErrs, DirErrs: want.DirErrs}
+		same := true
+		for _, d := range dirs {
+			model.Devs[d] = row.Fresh[d]
+			same = same && want.Devs[d] == row.Fresh[d]
+		}
+		if !same {
+			return "a new cache on the final directories differs from the specification's Fresh(cdirs)", want, model, nil
+		}
+	}
 	if !auto {
 		// manual mode: equal to a new cache after an explicit refresh (C20)
 		_ = cache.Refresh()
@@ -758,8 +788,19 @@ func replayAutoRow(idx int, line []byte, seed int64, col *collector, pacings []i
 		}
 		if len(fails) == attempts {
 			p2 := props
-			if idx%2 == 1 {
-				p2 = append(append([]string{}, props...), "C13") // an unscannable directory and its repair
+			nd := map[string]bool{}
+			missingOnce := len(row.Hist[0].Ex) < len(row.Hist[0].Nd)
+			for _, a := range row.Hist {
+				for _, d := range a.Nd {
+					nd[d] = true
+				}
+				if a.A == "rmdir" || a.A == "renamediraway" {
+					missingOnce = true
+				}
+			}
+			if idx%2 == 1 || (len(nd) > 1 && missingOnce) {
+				// an unscannable directory and its repair; a missing directory next to another configured one
+				p2 = append(append([]string{}, props...), "C13")
 			}
 			col.add(Mismatch{Case: idx, Step: pacing, Props: p2, What: "no-convergence", Want: want, Got: got,
 				Note: fmt.Sprintf("pacing %d (0 free-running, 1 recorded schedule, 2 watcher held until the end), missing directories are %s: %s; failed in %d fresh executions",
